@@ -102,13 +102,16 @@ def check_smooth(case, ctx):
     ds = np.sort(dirs)
     dd = ds[1] - ds[0] if nd > 1 else 360.0
     circular = nd > 1 and abs(ds[-1] - ds[0] + dd - 360.0) < 0.1 * dd
+    given = {c: (np.array(da[c].values), da[c].dtype) for c in da.coords}  # the coordinates as handed over
     with ctx.lib("spec.smooth(%d,%d)" % (fw, dw)):
         out = da.spec.smooth(freq_window=fw, dir_window=dw).compute()
     if tuple(out.dims) != tuple(da.dims):
         raise Violation("dims", "dims %s became %s" % (da.dims, out.dims))
-    for c in da.coords:
-        if c not in out.coords or not np.array_equal(np.asarray(out[c].values), np.asarray(da[c].values)):
-            raise Violation("coords", "coordinate %s changed: %s -> %s" % (c, da[c].values[:5], out[c].values[:5] if c in out.coords else None))
+    for c, (vals, dt) in given.items():
+        if c not in out.coords or not np.array_equal(np.asarray(out[c].values), vals) or out[c].dtype != dt:
+            raise Violation("coords", "coordinate %s changed: %s (%s) -> %s (%s)" % (c, vals[:5], dt, out[c].values[:5] if c in out.coords else None, out[c].dtype if c in out.coords else None))
+        if not np.array_equal(np.asarray(da[c].values), vals) or da[c].dtype != dt:
+            raise Violation("coords", "smoothing changed coordinate %s of the spectra it was given: %s (%s) -> %s (%s)" % (c, vals[:5], dt, da[c].values[:5], da[c].dtype))
     tol = 1e-12 if case["dtype"] == "float64" else 2e-5
     if fw == 1 and dw == 1 and not np.array_equal(out.values, da.values):
         raise Violation("identity", "window (1,1) changed the spectrum")
